@@ -77,10 +77,30 @@ Record program := {
   p_structs : list (ident * list (ident * zkind))
 }.
 
-Inductive res (X : Type) := ROk (x : X) | RPanic | RStuck | RFuel.
-Arguments ROk {X} x. Arguments RPanic {X}. Arguments RStuck {X}. Arguments RFuel {X}.
-Definition rbind {X Y} (r : res X) (k : X -> res Y) : res Y :=
-  match r with ROk x => k x | RPanic => RPanic | RStuck => RStuck | RFuel => RFuel end.
+(* results: a panic carries the state at the point of the panic (P: the environment of the function that
+   was running; for a call: the receiver as the callee left it) *)
+Inductive res (P X : Type) := ROk (x : X) | RPanic (p : P) | RStuck | RFuel.
+Arguments ROk {P X} x. Arguments RPanic {P X} p. Arguments RStuck {P X}. Arguments RFuel {P X}.
+Definition rbind {P X Y} (r : res P X) (k : X -> res P Y) : res P Y :=
+  match r with ROk x => k x | RPanic p => RPanic p | RStuck => RStuck | RFuel => RFuel end.
+(* a panic of a computation that has no state of its own happens in the state [p] *)
+Definition at_state {P Q X} (p : P) (r : res Q X) : res P X :=
+  match r with ROk x => ROk x | RPanic _ => RPanic p | RStuck => RStuck | RFuel => RFuel end.
+
+(* canonical identifiers of struct fields (see tools/gotrans): kind of the field's type and ordinal among the
+   fields of that kind in its struct *)
+Notation f_int0 := 1%positive (only parsing).   Notation f_bool0 := 2%positive (only parsing).
+Notation f_elem0 := 3%positive (only parsing).  Notation f_slice0 := 4%positive (only parsing).
+Notation f_nil0 := 5%positive (only parsing).
+Notation f_int1 := 6%positive (only parsing).   Notation f_bool1 := 7%positive (only parsing).
+Notation f_elem1 := 8%positive (only parsing).  Notation f_slice1 := 9%positive (only parsing).
+Notation f_nil1 := 10%positive (only parsing).
+Notation f_int2 := 11%positive (only parsing).  Notation f_bool2 := 12%positive (only parsing).
+Notation f_elem2 := 13%positive (only parsing). Notation f_slice2 := 14%positive (only parsing).
+Notation f_nil2 := 15%positive (only parsing).
+Notation f_int3 := 16%positive (only parsing).  Notation f_bool3 := 17%positive (only parsing).
+Notation f_elem3 := 18%positive (only parsing). Notation f_slice3 := 19%positive (only parsing).
+Notation f_nil3 := 20%positive (only parsing).
 Notation "'do' x <- r ; k" := (rbind r (fun x => k)) (at level 200, x pattern, r at level 100, k at level 200).
 
 Definition two64 : Z := 18446744073709551616.
@@ -152,13 +172,13 @@ Definition zcopy (dst src : list val) : list val :=
 Definition zsplice (l : list val) (lo hi : Z) (seg : list val) : list val :=
   firstn (Z.to_nat lo) l ++ seg ++ skipn (Z.to_nat hi) l.
 
-Definition arith (op : binop) (a b : val) : res val :=
+Definition arith (op : binop) (a b : val) : res unit val :=
   match op, a, b with
   | BAdd, VInt x, VInt y => ROk (VInt (x + y))
   | BSub, VInt x, VInt y => ROk (VInt (x - y))
   | BMul, VInt x, VInt y => ROk (VInt (x * y))
-  | BQuo, VInt x, VInt y => if (y =? 0)%Z then RPanic else ROk (VInt (Z.quot x y))
-  | BRem, VInt x, VInt y => if (y =? 0)%Z then RPanic else ROk (VInt (Z.rem x y))
+  | BQuo, VInt x, VInt y => if (y =? 0)%Z then RPanic tt else ROk (VInt (Z.quot x y))
+  | BRem, VInt x, VInt y => if (y =? 0)%Z then RPanic tt else ROk (VInt (Z.rem x y))
   | BEq, VInt x, VInt y => ROk (VBool (x =? y)%Z)
   | BNe, VInt x, VInt y => ROk (VBool (negb (x =? y)%Z))
   | BLt, VInt x, VInt y => ROk (VBool (x <? y)%Z)
@@ -176,6 +196,11 @@ Fixpoint is_place (e : expr) : bool :=
 
 Definition ret_val (vs : list val) : val :=
   match vs with [v] => v | _ => VTuple vs end.
+
+(* inside a function a panic carries the environment; out of a call it carries the receiver as the callee
+   left it (which the caller writes back before it passes the panic on) *)
+Definition eres (X : Type) := res env X.
+Definition cres := res val (val * val).
 
 Fixpoint bind_all (xs : list ident) (vs : list val) (en : env) : option env :=
   match xs, vs with
@@ -195,24 +220,24 @@ Definition spread (n : nat) (vs : list val) : option (list val) :=
    ties the knot on the fuel.  (Proofs unfold one level at a time; a mutual fixpoint of this size is
    very slow to unfold.) *)
 Record interp := {
-  i_eval : expr -> env -> res (val * env);
-  i_assign : expr -> val -> env -> res env;
-  i_exec : stmt -> env -> res (sig * env);
-  i_loop : option expr -> option stmt -> list stmt -> env -> res (sig * env);
-  i_call : val -> ident -> list val -> res (val * val)
+  i_eval : expr -> env -> eres (val * env);
+  i_assign : expr -> val -> env -> eres env;
+  i_exec : stmt -> env -> eres (sig * env);
+  i_loop : option expr -> option stmt -> list stmt -> env -> eres (sig * env);
+  i_call : val -> ident -> list val -> cres
 }.
 
 Section Step.
 Variable r : interp.   (* the interpreter one level down *)
 
-Fixpoint evals (es : list expr) (en : env) : res (list val * env) :=
+Fixpoint evals (es : list expr) (en : env) : eres (list val * env) :=
   match es with
   | [] => ROk ([], en)
   | e :: t => do (v, en1) <- i_eval r e en; do (vs, en2) <- evals t en1; ROk (v :: vs, en2)
   end.
 
 (* the fields of a composite literal, over the zero values of the declared fields *)
-Fixpoint fields (fs : list (ident * expr)) (acc : list (ident * val)) (en : env) : res (list (ident * val) * env) :=
+Fixpoint fields (fs : list (ident * expr)) (acc : list (ident * val)) (en : env) : eres (list (ident * val) * env) :=
   match fs with
   | [] => ROk (acc, en)
   | (x, e) :: t =>
@@ -220,14 +245,14 @@ Fixpoint fields (fs : list (ident * expr)) (acc : list (ident * val)) (en : env)
     match lookup x acc with Some _ => fields t (set x v acc) en1 | None => RStuck end
   end.
 
-Fixpoint assigns (lhs : list expr) (vs : list val) (en : env) : res env :=
+Fixpoint assigns (lhs : list expr) (vs : list val) (en : env) : eres env :=
   match lhs, vs with
   | [], [] => ROk en
   | t :: lhs', v :: vs' => do en1 <- i_assign r t v en; assigns lhs' vs' en1
   | _, _ => RStuck
   end.
 
-Fixpoint execs (ss : list stmt) (en : env) : res (sig * env) :=
+Fixpoint execs (ss : list stmt) (en : env) : eres (sig * env) :=
   match ss with
   | [] => ROk (SgNormal, en)
   | s :: t =>
@@ -236,18 +261,18 @@ Fixpoint execs (ss : list stmt) (en : env) : res (sig * env) :=
   end.
 
 (* does the tag equal one of the case expressions (evaluated in order, as far as needed)? *)
-Fixpoint matches (tv : val) (es : list expr) (en : env) : res (bool * env) :=
+Fixpoint matches (tv : val) (es : list expr) (en : env) : eres (bool * env) :=
   match es with
   | [] => ROk (false, en)
   | e :: t =>
     do (v, en1) <- i_eval r e en;
-    do b <- arith BEq tv v;
+    do b <- at_state en1 (arith BEq tv v);
     match b with VBool true => ROk (true, en1) | _ => matches tv t en1 end
   end.
 
 (* the body of the first matching case; the default when there is none *)
 Fixpoint select (tv : val) (cases : list (option (list expr) * list stmt)) (dflt : option (list stmt)) (en : env)
-  : res (list stmt * env) :=
+  : eres (list stmt * env) :=
   match cases with
   | [] => ROk (match dflt with Some b => b | None => [] end, en)
   | (None, body) :: t => select tv t (Some body) en
@@ -257,7 +282,7 @@ Fixpoint select (tv : val) (cases : list (option (list expr) * list stmt)) (dflt
   end.
 
 (* for k, x := range l *)
-Fixpoint range (k x : option ident) (l : list val) (i : Z) (body : list stmt) (en : env) : res (sig * env) :=
+Fixpoint range (k x : option ident) (l : list val) (i : Z) (body : list stmt) (en : env) : eres (sig * env) :=
   match l with
   | [] => ROk (SgNormal, en)
   | w :: t =>
@@ -271,7 +296,7 @@ Fixpoint range (k x : option ident) (l : list val) (i : Z) (body : list stmt) (e
     end
   end.
 
-Definition eval_step (e : expr) (en : env) : res (val * env) :=
+Definition eval_step (e : expr) (en : env) : eres (val * env) :=
   let eval := i_eval r in
   match e with
   | EInt z => ROk (VInt z, en)
@@ -301,7 +326,7 @@ Definition eval_step (e : expr) (en : env) : res (val * env) :=
   | EBin op a b =>
     do (va, en1) <- eval a en;
     do (vb, en2) <- eval b en1;
-    do x <- arith op va vb; ROk (x, en2)
+    do x <- at_state en2 (arith op va vb); ROk (x, en2)
   | EUn UNeg a => do (va, en1) <- eval a en; match va with VInt x => ROk (VInt (- x), en1) | _ => RStuck end
   | EUn UNot a => do (va, en1) <- eval a en; match va with VBool x => ROk (VBool (negb x), en1) | _ => RStuck end
   | ELen e' =>
@@ -311,7 +336,7 @@ Definition eval_step (e : expr) (en : env) : res (val * env) :=
     do (v, en1) <- eval e' en;
     do (vi, en2) <- eval i en1;
     match as_slice v, vi with
-    | Some l, VInt z => match zidx l z with Some w => ROk (w, en2) | None => RPanic end
+    | Some l, VInt z => match zidx l z with Some w => ROk (w, en2) | None => RPanic en2 end
     | _, _ => RStuck
     end
   | ESlice e' lo hi =>
@@ -321,7 +346,7 @@ Definition eval_step (e : expr) (en : env) : res (val * env) :=
     | Some l =>
       do (vhi, en3) <- match hi with Some x => eval x en2 | None => ROk (VInt (Z.of_nat (length l)), en2) end;
       match vlo, vhi with
-      | VInt a, VInt b => match zsub l a b with Some l' => ROk (re_slice v l', en3) | None => RPanic end
+      | VInt a, VInt b => match zsub l a b with Some l' => ROk (re_slice v l', en3) | None => RPanic en3 end
       | _, _ => RStuck
       end
     | None => RStuck
@@ -329,7 +354,7 @@ Definition eval_step (e : expr) (en : env) : res (val * env) :=
   | EMake zk n =>
     do (vn, en1) <- eval n en;
     match vn with
-    | VInt z => if (z <? 0)%Z || (two63 <=? z)%Z then RPanic
+    | VInt z => if (z <? 0)%Z || (two63 <=? z)%Z then RPanic en1
                 else ROk (VSlice (repeat (zero_of zk) (Z.to_nat z)), en1)
     | _ => RStuck
     end
@@ -368,23 +393,26 @@ Definition eval_step (e : expr) (en : env) : res (val * env) :=
       (* the receiver is re-read after the arguments (it is a pointer, or a slice sharing its elements),
          and the callee's final receiver value is written back *)
       do (rv, _) <- eval rc en2;
-      do (out, rv') <- i_call r rv m avs;
-      do en3 <- i_assign r rc rv' en2;
-      ROk (out, en3)
+      match i_call r rv m avs with
+      | ROk (out, rv') => do en3 <- i_assign r rc rv' en2; ROk (out, en3)
+      | RPanic rv' => do en3 <- i_assign r rc rv' en2; RPanic en3      (* what the callee had done stays done *)
+      | RStuck => RStuck
+      | RFuel => RFuel
+      end
     else
-      do (out, _) <- i_call r rv0 m avs; ROk (out, en2)
+      do (out, _) <- at_state en2 (i_call r rv0 m avs); ROk (out, en2)
   | EMethVal rc m => do (rv, en1) <- eval rc en; ROk (VMeth rv m, en1)
   | ECallVal fn args =>
     do (fv, en1) <- eval fn en;
     do (avs, en2) <- evals args en1;
     match fv with
-    | VMeth rv m => do (out, _) <- i_call r rv m avs; ROk (out, en2)
+    | VMeth rv m => do (out, _) <- at_state en2 (i_call r rv m avs); ROk (out, en2)
     | _ => RStuck
     end
   end.
 
 (* store v into the place / element / segment denoted by the target expression *)
-Definition assign_step (target : expr) (v : val) (en : env) : res env :=
+Definition assign_step (target : expr) (v : val) (en : env) : eres env :=
   let eval := i_eval r in
   let assign := i_assign r in
   match target with
@@ -399,7 +427,7 @@ Definition assign_step (target : expr) (v : val) (en : env) : res env :=
     do (tv, en1) <- eval t en;
     do (vi, en2) <- eval i en1;
     match as_slice tv, vi with
-    | Some l, VInt z => match zset l z v with Some l' => assign t (re_slice tv l') en2 | None => RPanic end
+    | Some l, VInt z => match zset l z v with Some l' => assign t (re_slice tv l') en2 | None => RPanic en2 end
     | _, _ => RStuck
     end
   | ESlice t lo hi =>
@@ -412,7 +440,7 @@ Definition assign_step (target : expr) (v : val) (en : env) : res env :=
       | VInt a, VInt b =>
         match zsub l a b with
         | Some old => if length old =? length seg then assign t (re_slice tv (zsplice l a b seg)) en3 else RStuck
-        | None => RPanic
+        | None => RPanic en3
         end
       | _, _ => RStuck
       end
@@ -421,7 +449,7 @@ Definition assign_step (target : expr) (v : val) (en : env) : res env :=
   | _ => RStuck
   end.
 
-Definition exec_step (s : stmt) (en : env) : res (sig * env) :=
+Definition exec_step (s : stmt) (en : env) : eres (sig * env) :=
   let eval := i_eval r in
   let assign := i_assign r in
   let exec := i_exec r in
@@ -443,11 +471,11 @@ Definition exec_step (s : stmt) (en : env) : res (sig * env) :=
   | SOpAssign op lhs rhs =>
     do (a, en1) <- eval lhs en;
     do (b, en2) <- eval rhs en1;
-    do x <- arith op a b;
+    do x <- at_state en2 (arith op a b);
     do en3 <- assign lhs x en2; ROk (SgNormal, en3)
   | SIncDec inc lhs =>
     do (a, en1) <- eval lhs en;
-    do x <- arith (if inc then BAdd else BSub) a (VInt 1);
+    do x <- at_state en1 (arith (if inc then BAdd else BSub) a (VInt 1));
     do en2 <- assign lhs x en1; ROk (SgNormal, en2)
   | SIf c th el =>
     do (vc, en1) <- eval c en;
@@ -468,7 +496,7 @@ Definition exec_step (s : stmt) (en : env) : res (sig * env) :=
     do (v, en1) <- eval e en;
     match as_slice v with Some l => range k x l 0 body en1 | None => RStuck end
   | SReturn es => do (vs, en1) <- evals es en; ROk (SgReturn (ret_val vs), en1)
-  | SPanic => RPanic
+  | SPanic => RPanic en
   | SExpr e => do (_, en1) <- eval e en; ROk (SgNormal, en1)
   | SBlock b => execs b en
   | SBreak => ROk (SgBreak, en)
@@ -476,8 +504,8 @@ Definition exec_step (s : stmt) (en : env) : res (sig * env) :=
   end.
 
 (* for c; post { body }: one iteration, then [again] (one unit of fuel per iteration) *)
-Definition loop_step (again : env -> res (sig * env)) (c : option expr) (post : option stmt) (body : list stmt) (en : env)
-  : res (sig * env) :=
+Definition loop_step (again : env -> eres (sig * env)) (c : option expr) (post : option stmt) (body : list stmt) (en : env)
+  : eres (sig * env) :=
   do (vc, en1) <- match c with Some c' => i_eval r c' en | None => ROk (VBool true, en) end;
   match vc with
   | VBool false => ROk (SgNormal, en1)
@@ -494,7 +522,7 @@ Definition loop_step (again : env -> res (sig * env)) (c : option expr) (post : 
   end.
 
 (* run method m of the dynamic type of recv: (result, final receiver value) *)
-Definition call_step (recv : val) (m : ident) (args : list val) : res (val * val) :=
+Definition call_step (recv : val) (m : ident) (args : list val) : cres :=
   match type_of recv with
   | None => RStuck
   | Some t =>
@@ -503,15 +531,20 @@ Definition call_step (recv : val) (m : ident) (args : list val) : res (val * val
       match bind_all (fn_params fd) args [(fn_recv fd, recv)] with
       | None => RStuck
       | Some en0 =>
-        do (sg, en1) <- execs (fn_body fd) en0;
-        match lookup (fn_recv fd) en1 with
-        | None => RStuck
-        | Some recv' =>
-          match sg with
-          | SgNormal => ROk (VTuple [], recv')
-          | SgReturn v => ROk (v, recv')
-          | _ => RStuck
+        match execs (fn_body fd) en0 with
+        | ROk (sg, en1) =>
+          match lookup (fn_recv fd) en1 with
+          | None => RStuck
+          | Some recv' =>
+            match sg with
+            | SgNormal => ROk (VTuple [], recv')
+            | SgReturn v => ROk (v, recv')
+            | _ => RStuck
+            end
           end
+        | RPanic en1 => match lookup (fn_recv fd) en1 with Some recv' => RPanic recv' | None => RStuck end
+        | RStuck => RStuck
+        | RFuel => RFuel
         end
       end
     | None => match ext t m recv args with Some v => ROk (v, recv) | None => RStuck end
@@ -542,10 +575,14 @@ Definition call_at (fuel : nat) := i_call (interp_at fuel).
 Definition run_method (fuel : nat) (recv : val) (m : ident) (args : list val) : out (val * val) :=
   match call_at fuel recv m args with
   | ROk r => Ret r
-  | RPanic => Panic
+  | RPanic _ => Panic
   | RStuck => Hang
   | RFuel => Hang
   end.
+
+(* the same with the receiver as a panicking call leaves it: [None] unless the call panics *)
+Definition panic_state (fuel : nat) (recv : val) (m : ident) (args : list val) : option val :=
+  match call_at fuel recv m args with RPanic r => Some r | _ => None end.
 
 End Interp.
 
